@@ -181,7 +181,11 @@ func refHistory(cfg HistCfg, steps []Step) []string {
 						}
 					}
 					if d, ok := disk[id]; ok && cfg.Storage == "disk" {
-						e.list, e.signer = d.list, d.signer
+						// a persisted list counts under verify only together with the certificate that verified it,
+						// and only if that certificate is still usable as a signer for this handshake
+						if cfg.SigMode != "verify" || (d.signer != "" && chain[d.signer]) {
+							e.list, e.signer = d.list, d.signer
+						}
 					}
 					entries[id] = e
 					added = true
